@@ -6,37 +6,97 @@ TRUSTED = ("TLC 1.8.0 + CommunityModules; the `verif` atomics shim of /repo (src
            "call-site -> (function, field) mapper; sequential consistency (one thread runs at a time, TLC interleaves atomic actions); "
            "small scope: exhaustive only for the constants listed in the evidence file")
 
-CLAIMED = {
-    "C02": dict(
-        text="TLC exhaustively checks the implementation-shaped specs RingAtomic / RingFullSync (one action per atomic operation, counters modulo W, every origin incl. wrap) "
-             "against the LinQueue on-line linearizability monitor (atomic bounded FIFO + the capacity rule of the statement); the specs are bound to the real AtomicMove / FullSyncMove / "
-             "Uni channels by trace validation: thousands of executions of the real code under a deterministic scheduler (preemption-bounded DFS + random schedules, counters started "
-             "at 0 and just below 2^32) are replayed through the trace specs by TLC, each atomic operation with operands and result, and the L1 monitor is evaluated on the real histories.",
-        design="7 (C02), 4, 5",
-        technique="TLA+ L2 spec + LinQueue monitor checked by TLC; trace validation of real executions (deterministic scheduler) against the spec"),
-    "C13": dict(
-        text="TLC exhaustively checks the pool allocator's free list (RingAtomic / RingFullSync started pre-filled with the ids 0..POOL_SIZE-1, every counter origin incl. wrap) "
-             "under multi-threaded alloc/dealloc scripts with exhaust-and-refill cycles against the LinQueue monitor in 'bag' mode (an allocation returns a free id, never an owned one; "
-             "fails only if all slots are owned or in transit at some instant) plus the invariant InvOneOwner; executions of the real AllocatorAtomicArray / AllocatorFullSyncArray "
-             "(alloc_ref, alloc_with, dealloc_id, dealloc_ref) under the deterministic scheduler are validated by TLC against the same specs, and the id<->reference bijection is compared on the real pointers.",
-        design="7 (C13), 4, 5",
-        technique="TLA+ L2 spec + LinQueue(bag) monitor checked by TLC; trace validation of real executions (deterministic scheduler) against the spec"),
-    "C18": dict(
-        text="TLC exhaustively checks SpinStack (the atomic-flag stack: swap / each plain access of the critical region / store as separate actions) and the rings under the two non-blocking queues "
-             "against the LinQueue monitor (lifo / fifo, 'full' and 'empty' answers justified at an instant of the call); executions of the real atomic-flag stack under the deterministic scheduler are "
-             "validated against SpinStack, those of the two NonBlockingQueues against the L1 monitor; all four containers (incl. the parking-lot stack) are additionally run free on 16 cores, "
-             "call/return stamped from one global counter, and the merged histories are checked for linearizability by TLC.",
-        design="7 (C18), 4, 5",
-        technique="TLA+ L2 spec (SpinStack, rings) + LinQueue(lifo/fifo) monitor checked by TLC; trace validation of deterministic-scheduler and free-running executions of the real containers"),
-    "C15": dict(
-        text="The L1 oracles contain no sequence counters, so a history accepted from every origin is origin independence. TLC checks RingAtomic / RingFullSync / the pool free list from *every* origin of the "
-             "counter modulus W (wrap inside every run) with and without overflow checks; the real rings, pool allocators and reservation API run the same single-thread histories (send, receive, reserve, "
-             "send-reserved, cancel, length, teardown with leftovers) from origin 0 and from each origin in a window around 2^32 (verif::set_sequence_origin), in a debug (overflow checks) and a nochecks build; "
-             "every run is validated by TLC against the trace specs, results are compared operation by operation with origin 0, panics are an L1 verdict; plus concurrent schedules started right below the wrap.",
-        design="7 (C15), 4, 5",
-        technique="TLA+ L2 specs from every counter origin checked by TLC; trace validation + origin-0 differential of real executions started around the 32-bit wrap (debug and nochecks builds)"),
-}
+L1UNI = "Trace_AbsUni (L1: one atomic bounded FIFO with the capacity rule, delivered-once bags, parked-with-work, cancel, reservations, destruction counts)"
+L1MULTI = "Trace_AbsMulti (L1: listener lifetimes, per-listener exactly-once / producer order / same payload, churn classification, log total order and old/new split)"
+DET = "executions of the real code under the deterministic scheduler (preemption-bounded DFS + seeded random schedules; one scheduling point per shimmed atomic operation / yield point)"
 
+def _c(text, design, technique):
+    return dict(text=text, design=design, technique=technique)
+
+CLAIMED = {
+    "C01": _c("API-level histories of all five real Uni channel kinds (2 producers through send / send_with / send_with_async / reserve+send_reserved against 1..2 driven streams, BUFFER_SIZE 2 and 4 so the buffer fills and drains) "
+              "recorded from " + DET + " and validated by TLC against " + L1UNI + ": every accepted event delivered exactly once, nothing invented, rejected ones never delivered and their setter un-invoked; "
+              "the rings underneath are covered by the exhaustive RingAtomic / RingFullSync models of C02.",
+              "7 (C01), 4, 5", "TLC trace validation of real executions (deterministic scheduler) against the L1 TLA+ spec Trace_AbsUni; exhaustive TLC on the L2 ring specs"),
+    "C02": _c("TLC exhaustively checks the implementation-shaped specs RingAtomic / RingFullSync (one action per atomic operation, counters modulo W, every origin incl. wrap) against the LinQueue on-line linearizability monitor "
+              "(atomic bounded FIFO + the capacity rule of the statement); executions of the real AtomicMove / FullSyncMove under the deterministic scheduler are replayed through the L2 trace specs by TLC, each atomic operation with "
+              "operands and result; the five real Uni channels (all send entry points against single polls, payload handles held and released on the zero-copy kinds) are validated against the same monitor inside Trace_AbsUni.",
+              "7 (C02), 4, 5", "TLA+ L2 spec + LinQueue monitor checked by TLC; trace validation of real executions (deterministic scheduler) against the L2 and L1 specs"),
+    "C03": _c("Histories of the six real Multi channel kinds (1..3 listeners created before the first send, 2 producers through every implemented entry point, fewer events than the buffer) from " + DET +
+              ", validated by TLC against " + L1MULTI + ": each listener yields every accepted event exactly once, in each producer's order, with the same payload address for all listeners; plus one total order on the log channel.",
+              "7 (C03)", "TLC trace validation of real executions (deterministic scheduler) against the L1 TLA+ spec Trace_AbsMulti"),
+    "C04": _c("Driven streams (hand-polled tasks with tokio-like sticky wakers: park on Pending, re-poll on wake) on all five Uni and six Multi channel kinds, MAX_STREAMS 1 and 2, 2..3 producers through every entry point with the "
+              "scheduler switching threads between reservation / write / publication / wake decision and consume / keep-running check / waker registration; the quiescent end state of every execution is judged by TLC "
+              "(Trace_AbsUni / Trace_AbsMulti: a parked, not cancelled stream with a deliverable accepted event and no runnable thread is a lost wake-up).",
+              "7 (C04), 8 (D1)", "TLC trace validation of real executions (deterministic scheduler, manual wakers) against the L1 TLA+ specs; known finding recorded for the Uni atomic kinds"),
+    "C05": _c("Instrumented payloads (per-value destruction counter, alive marker) and a wrapper allocator that notices any use after its own Drop, on the Uni movable + zero-copy and the Multi arc / ogre_arc channels: "
+              "handles held and released on other threads, teardown with events still buffered, refill after everything was consumed and released; every history judged by TLC (destroyed at most once, exactly once as soon as "
+              "delivered and released, nothing touched after free, BUFFER_SIZE events accepted again).",
+              "7 (C05), 8 (D2)", "TLC trace validation of real executions (deterministic scheduler, instrumented payload / allocator) against the L1 TLA+ specs"),
+    "C06": _c("CloseProto (TLA+): the graceful-close protocol against a futures executor with a concurrency limit, checked by TLC for limit 1, limit >= 2 (counterexample = the recorded finding) and the candidate repair; "
+              "the real Uni / Multi over every channel kind, all executor kinds, limits 1..4, 0..3 events buffered or in flight inside *gated* item futures (no timing dependence), close(Duration::ZERO) on a paused-clock "
+              "current-thread runtime and on the multi-thread runtime; the logged life-cycle events are validated by TLC against Trace_AbsExecutor (close returns only after every accepted event was processed; afterwards "
+              "no stream, channel closed, later sends not delivered).",
+              "7 (C06), 8 (D3)", "TLA+ model CloseProto checked by TLC; TLC trace validation of gated tokio executions of the real Uni / Multi against the L1 TLA+ spec Trace_AbsExecutor"),
+    "C07": _c("cancel_all_streams issued at every point of the streams' poll steps (before the first poll, between consume and waker registration, while parked, with events buffered), with a concurrent sender, "
+              "streams dropped and ids reused, on all Uni and Multi channel kinds with 1..3 streams, from " + DET + "; TLC judges every history (a cancelled stream yields only what is buffered and ends; none stays parked; "
+              "running count exact). Ending a single stream (flush_and_cancel_executor) is covered with the tokio drivers of C12.",
+              "7 (C07)", "TLC trace validation of real executions (deterministic scheduler) against the L1 TLA+ specs"),
+    "C08": _c("Random histories of reserve / fill / send-reserved / cancel (reverse order) / plain send / receive ending in a capacity probe, on the three Uni channels that implement the API, from every sequence origin in a window "
+              "around 2^32, plus a reserving producer against a concurrently polling consumer; the reservation actions of RingAtomic are model-checked from every origin (C15); histories validated by TLC against Trace_AbsUni "
+              "(sent slots deliver what was written, cancelled vanish, exactly BUFFER_SIZE accepted afterwards, no panic).",
+              "7 (C08), 8 (D4)", "TLA+ L2 spec (reservation actions) checked by TLC from every counter origin; TLC trace validation of real executions against the L1 TLA+ spec Trace_AbsUni"),
+    "C09": _c("The real mmap-log Multi channel: two publishers racing with late subscriptions (new only / joined / old+new split) and listeners consuming at their own pace, from " + DET +
+              "; TLC validates every history against Trace_AbsMulti: full replay for joined listeners, the same total order for all listeners, each producer's order, the split pair partitions the history, same address for one event.",
+              "7 (C09)", "TLC trace validation of real executions (deterministic scheduler) against the L1 TLA+ spec Trace_AbsMulti"),
+    "C10": _c("Random sequential histories of create-listener / send / receive / drop (with or without leftovers) / running-count on the five non-log Multi channels for MAX_STREAMS 1, 2, 4, and create/drop bookkeeping cycles on the "
+              "five Uni channels; TLC validates against Trace_AbsMulti / Trace_AbsUni: a listener yields only events accepted during its lifetime, ids recycle, running count = live streams.",
+              "7 (C10), 8 (D5)", "TLC trace validation of real executions against the L1 TLA+ specs"),
+    "C11": _c("Executor (TLA+): for_each / for_each_concurrent accounting model checked by TLC (in-flight <= limit, one outcome per item, error callback exactly once, counters add up, close after the last item); the real "
+              "StreamExecutor in all five spawn variants x timeout on/off x instruments x limits 1..3, every item sequence over {ok, err, slow, slowerr} up to length 3 (4 thorough) with gated item futures released out of order, "
+              "on the paused-clock and the multi-thread runtime; logged events validated by TLC against Trace_AbsExecutor.",
+              "7 (C11)", "TLA+ model Executor checked by TLC; TLC trace validation of gated tokio executions of the real executors against the L1 TLA+ spec Trace_AbsExecutor"),
+    "C12": _c("Executor + UniLatch (TLA+) checked by TLC; real executors, Unis (MAX_STREAMS 1, 2; all channel kinds) and Multis (close, flush_and_cancel_executor of one listener, mmap old/new executors with and without the "
+              "sequential transition) with gated items completing out of order; TLC validates: close callback exactly once per executor, after its last item, in an ended state, finish >= start; Uni callback once; "
+              "no new event before every old one when sequential.",
+              "7 (C12)", "TLA+ models Executor / UniLatch checked by TLC; TLC trace validation of gated tokio executions against the L1 TLA+ spec Trace_AbsExecutor"),
+    "C13": _c("TLC exhaustively checks the pool allocator's free list (RingAtomic / RingFullSync started pre-filled with the ids 0..POOL_SIZE-1, every counter origin incl. wrap) under multi-threaded alloc/dealloc scripts with "
+              "exhaust-and-refill cycles against the LinQueue monitor in 'bag' mode (an allocation returns a free id, never an owned one; fails only if all slots are owned or in transit at some instant) plus InvOneOwner; "
+              "executions of the real AllocatorAtomicArray / AllocatorFullSyncArray (alloc_ref, alloc_with, dealloc_id, dealloc_ref) under the deterministic scheduler are validated by TLC against the same specs, and the "
+              "id<->reference bijection is compared on the real pointers.",
+              "7 (C13), 4, 5", "TLA+ L2 spec + LinQueue(bag) monitor checked by TLC; trace validation of real executions (deterministic scheduler) against the spec"),
+    "C14": _c("OgreArc (TLA+): the reference-counting protocol (clone = fetch_add, drop = fetch_sub and whoever saw 1 deallocates and frees the control block, bulk increment + raw copies) checked by TLC on 2..3 threads; "
+              "the real OgreArc / OgreUnique handles (new, new_with_clones, clone, increment_references + raw_copy, into_ogre_arc, deref, references_count, drop from several threads) under the deterministic scheduler, every "
+              "counter operation validated against the L2 spec with its operands, and the L1 rules judged by TLC: deref = creation value, count = live handles when nothing is in flight, destroyed exactly with the last handle, "
+              "slot back in the pool.",
+              "7 (C14)", "TLA+ L2 spec OgreArc checked by TLC; trace validation of real executions (deterministic scheduler) against it, with L1 verdicts"),
+    "C15": _c("The L1 oracles contain no sequence counters, so a history accepted from every origin is origin independence. TLC checks RingAtomic / RingFullSync / the pool free list from *every* origin of the counter modulus W "
+              "(wrap inside every run) with and without overflow checks; the real rings, pool allocators and reservation API run the same single-thread histories (send, receive, reserve, send-reserved, cancel, length, teardown "
+              "with leftovers) from origin 0 and from each origin in a window around 2^32 (verif::set_sequence_origin), in a debug (overflow checks) and a nochecks build; every run is validated by TLC against the trace specs, "
+              "results are compared operation by operation with origin 0, panics are an L1 verdict; plus concurrent schedules started right below the wrap.",
+              "7 (C15), 4, 5", "TLA+ L2 specs from every counter origin checked by TLC; trace validation + origin-0 differential of real executions started around the 32-bit wrap (debug and nochecks builds)"),
+    "C16": _c("Fill / rejected sends through every entry point / make room / retry / drain cycles and 3 producers colliding at the full boundary against a slow consumer, on all five Uni channels and the two ogre_arc Multi "
+              "channels; TLC validates each history against Trace_AbsUni / Trace_AbsMulti: a send is rejected only if all slots are taken at some instant (LinQueue capacity rule), the rejected setter is un-invoked, "
+              "pending count unchanged, no thread stalls, exactly BUFFER_SIZE events are accepted again in every cycle (capacity probe).",
+              "7 (C16)", "TLC trace validation of real executions (deterministic scheduler) against the L1 TLA+ specs (LinQueue capacity rule)"),
+    "C17": _c("A producer fanning out two events while another thread creates or drops a listener (2..3 pre-existing listeners, MAX_STREAMS 4; yield points inside the sender loops and inside the live-list rebuild let the "
+              "scheduler interleave them entry by entry) on all six Multi channel kinds; TLC validates against Trace_AbsMulti: listeners that exist throughout get every event once and in order, the added / removed listener a "
+              "gap-free suffix / prefix, no payload storage stays occupied (capacity probe), nothing is used after free.",
+              "7 (C17), 8 (D6)", "TLC trace validation of real executions (deterministic scheduler) against the L1 TLA+ spec Trace_AbsMulti; known finding recorded for sends overlapping churn"),
+    "C18": _c("TLC exhaustively checks SpinStack (the atomic-flag stack: swap / each plain access of the critical region / store as separate actions) and the rings under the two non-blocking queues against the LinQueue monitor "
+              "(lifo / fifo, 'full' and 'empty' answers justified at an instant of the call); executions of the real atomic-flag stack under the deterministic scheduler are validated against SpinStack, those of the two "
+              "NonBlockingQueues against the L1 monitor; all four containers (incl. the parking-lot stack) are additionally run free on 16 cores, call/return stamped from one global counter, and the merged histories are "
+              "checked for linearizability by TLC.",
+              "7 (C18), 4, 5", "TLA+ L2 spec (SpinStack, rings) + LinQueue(lifo/fifo) monitor checked by TLC; trace validation of deterministic-scheduler and free-running executions of the real containers"),
+    "C19": _c("IncAvg (TLA+): load / compute / compare-exchange-retry of the packed (count, average) word with the average carried symbolically, checked by TLC for 2..3 recorders and a prober; the real metric (reached through "
+              "StreamExecutor::ok_events_avg_future_duration) under the deterministic scheduler, every atomic operation validated against the L2 spec; probes are judged bit-exactly against the library's own f32 fold over "
+              "every interleaving of per-thread prefixes; final count = number of recordings; the mean-within-tolerance clause is numeric and checked by the harness in f64 (stated as outside TLA+).",
+              "7 (C19)", "TLA+ L2 spec IncAvg checked by TLC; trace validation of real executions (deterministic scheduler) against it, with L1 verdicts (f32 fold oracle in the harness)"),
+    "C20": _c("One or two send_with_async calls whose setter is never resumed (the task is frozen by the scheduler) while other threads send, reserve, poll, drive streams and query the length, on every Uni and non-log Multi "
+              "channel kind, plus the resumed variant; the scheduler's stall verdict (a thread re-executing a failing CAS / lock with nobody left to write) and the L1 rules are judged by TLC (Trace_AbsUni / Trace_AbsMulti: "
+              "no stall while a setter is suspended, events accepted meanwhile are delivered).",
+              "7 (C20), 8 (D7)", "TLC trace validation of real executions (deterministic scheduler with frozen async setters) against the L1 TLA+ specs; known finding recorded for the movable Uni kinds"),
+}
 NOT_YET = "check not built yet (work in progress; see DESIGN.md section 12)"
 
 
